@@ -1923,7 +1923,10 @@ class Affine:
         else:
             raise ValueError('The input matrix must be semidefinite.')
 
-        sqrt_mat = np.real(sqrtm(sign*qmat))
+        # the symmetric square root from the eigen-decomposition: exact for
+        # singular matrices as well (sqrtm returns inf/nan for some of them)
+        evals, evecs = eigh(sign*qmat)
+        sqrt_mat = (evecs * np.sqrt(np.maximum(evals, 0))) @ evecs.T
         affine = sqrt_mat @ self.reshape(self.size)
 
         if sign == 1:
